@@ -348,6 +348,34 @@ class Walker:
         return ks
 
     # ------------------------------------------------------------ walking
+    def tested_vars(self):
+        """multiply-assigned locals that some switch scrutinee (or a local feeding one by a whole move)
+        depends on: only these are worth tracking along a path."""
+        tv = getattr(self, "_tested", None)
+        if tv is not None:
+            return tv
+        tv = set()
+        for bb in range(len(self.fn.blocks)):
+            si = self.T.switch_info(bb)
+            if si is None:
+                continue
+            for x in subterms(si[0]):
+                if x[0] == "var":
+                    tv.add(x[1])
+        # values moved whole into a tested local
+        changed = True
+        while changed:
+            changed = False
+            for b in self.fn.blocks:
+                for s in b["s"]:
+                    if s["k"] == "assign" and not s["p"].get("pr") and s["p"]["l"] in tv and s["r"]["k"] == "use":
+                        pl = s["r"]["o"].get("m") or s["r"]["o"].get("c")
+                        if pl is not None and not pl.get("pr") and pl["l"] not in tv and len(self.T.defs.get(pl["l"], ())) >= 2:
+                            tv.add(pl["l"])
+                            changed = True
+        self._tested = tv
+        return tv
+
     def _known_after(self, bb, val, killed, known):
         """Update the path-known values of locals with the assignments of block bb."""
         b = self.fn.blocks[bb]
@@ -355,11 +383,12 @@ class Walker:
             return known
         k = dict(known)
         multi = self.T.defs
+        tv = self.tested_vars()
         for s in b["s"]:
             if s["k"] != "assign" or s["p"].get("pr"):
                 continue
             l = s["p"]["l"]
-            if len(multi.get(l, ())) < 2:
+            if l not in tv or len(multi.get(l, ())) < 2:
                 continue
             r = s["r"]
             v = None
@@ -383,8 +412,9 @@ class Walker:
                 k[l] = v
         return k
 
-    def reachable(self, val, start=0, avoid=frozenset()):
-        """Blocks reachable from `start` under the valuation (never entering blocks in `avoid`)."""
+    def reachable(self, val, start=0, avoid=frozenset(), avoid_edges=frozenset()):
+        """Blocks reachable from `start` under the valuation (never entering blocks in `avoid`,
+        never taking an edge in `avoid_edges`)."""
         seen = set()
         st = [(start, frozenset(), ())]
         seen.add((start, frozenset(), ()))
@@ -397,7 +427,22 @@ class Walker:
             t = self.fn.blocks[bb]["t"]
             if t["k"] == "call" and not t["dest"].get("pr"):
                 known = dict(known)
-                known.pop(t["dest"]["l"], None)
+                dl = t["dest"]["l"]
+                v = None
+                if dl not in self.tested_vars():
+                    pass
+                elif len(self.T.defs.get(dl, ())) >= 2 and self.fn.locals[dl].hk == "bool" and "decl" in t["f"]:
+                    v = self.truth(self.T.call_term(t), val, k2, 0, known)
+                if v is None and dl in self.tested_vars() and "decl" in t["f"] and len(self.T.defs.get(dl, ())) >= 2:
+                    q = self.fn.callee(t)[0].qname
+                    if q == "std::ops::FromResidual::from_residual":
+                        v = ("V", "Err")
+                    elif q == "std::ops::Try::from_output":
+                        v = ("V", "Ok")
+                if v is None:
+                    known.pop(dl, None)
+                else:
+                    known[dl] = v
             succ = self.cfg.succ[bb]
             if self.atomic is not None and t["k"] == "goto" and "inlined_call" in t and "cont" in t and self.atomic(t["inlined_call"]):
                 # do not walk into the helper: its result is the opaque term call("inlined:<name>", args)
@@ -420,7 +465,7 @@ class Walker:
             for lab, tgt in succ:
                 if filt is not None and tgt not in filt:
                     continue
-                if tgt in avoid:
+                if tgt in avoid or (bb, tgt) in avoid_edges:
                     continue
                 s = (tgt, frozenset(k2), kt)
                 if s not in seen:
